@@ -85,8 +85,13 @@ func main() {
 	r := vlib.NewRun(id, tier, levels[id])
 	// VERIF_NO_EVIDENCE: runs against a deliberately altered tree (tools/trymutant.sh and friends) leave the committed evidence alone
 	r.NoEvidence = replay || os.Getenv("VERIF_NO_EVIDENCE") != ""
+	currentRun = r
 	os.Exit(fn(r))
 }
+
+// currentRun is the run of this process (nil in child processes); the stall
+// monitor of parallelDo reports through it.
+var currentRun *vlib.Run
 
 // childMain is the entry for isolated child processes (hostile inputs).
 var childEntries = map[string]func(args []string){}
